@@ -24,7 +24,8 @@ import shutil
 
 from hypothesis import strategies as st
 
-from .. import core, crash
+from .. import core
+from ..ref import faultpoints as fp
 
 ID = "C27"
 TITLE = "Metadata cache entries round-trip and are replaced atomically"
@@ -378,7 +379,7 @@ def _crash_part(ctx, env, case, pristine, model):
             return w
 
         w = fresh("dry")
-        dry = crash.dry_run(lambda: env.store(case, w, op), [w])
+        dry = fp.log_run(lambda: env.store(case, w, op), [w])
         if dry.status != "completed":
             b = "store-raised:" + (dry.exc or dry.status).split(":")[0]
             ctx.violation(b, case, f"store of {cpv} did not complete without injection: {dry.status} {dry.exc}")
@@ -386,24 +387,13 @@ def _crash_part(ctx, env, case, pristine, model):
         _inspect(ctx, env, case, w, model, cpv, old, new, "completed", "no injection", dry.events)
         evals += 1
         ctx.count("events_total", len(dry.events))
-        for k, mode in crash.points(dry.events):
-            if ctx.deadline is not None and ctx.out_of_time():
-                ctx.count("enumeration_cut_by_budget")
-                break
-            w = fresh(f"{k}{mode}")
-            res = crash.inject(lambda w=w: env.store(case, w, op), [w], k, mode)
-            if res.status in ("died", "not-reached"):
-                raise core.HarnessError(f"injection {k}/{mode} ended {res.status} (events={res.events})")
+        for k, mode, res, w in fp.injections(ctx, dry.events, fresh, lambda w: (lambda: env.store(case, w, op))):
             ev = dry.events[k - 1]
             what = f"{mode} event {k}/{len(dry.events)} {ev['ev']} {ev.get('path')}"
-            if res.status == "raised" and mode != "eio":
-                raise core.HarnessError(f"{what}: store raised without a fault: {res.exc}")
             if res.status == "raised" and not (res.exc or "").startswith(("CacheCorruption", "CacheError", "OSError")):
                 ctx.violation("eio:unexpected-exception:" + (res.exc or "").split(":")[0], case, f"{what}: {res.exc}")
             _inspect(ctx, env, case, w, model, cpv, old, new, res.status, what, dry.events)
-            ctx.count(f"inject_{mode}")
             evals += 1
-            shutil.rmtree(w, ignore_errors=True)
     finally:
         shutil.rmtree(base, ignore_errors=True)
     return evals
@@ -454,6 +444,36 @@ def _inspect(ctx, env, case, root, model, cpv, old, new, status, what, events):
 
 # ---------------------------------------------------------------- runner glue
 
+def smoke_cases():
+    """small deterministic family run first on every run: for both layouts a replace / fresh key / fresh directory
+    store under full crash+EIO enumeration (incl. death right after the rename), with the value, eclass and chf
+    shapes the round trip is sensitive to; detection of the covered classes does not depend on the budget guard"""
+    out = []
+    for backend in ("flat", "md5"):
+        flat = backend == "flat"
+        chf = (lambda m, h: m) if flat else (lambda m, h: h)
+        ecl_old = [["eutils", "/var/db/repos/gentoo/eclass", chf(1155996352, "d41d8cd98f00b204e9800998ecf8427e")]]
+        ecl_new = [
+            ["toolchain-funcs", "/var/lib/my overlay/eclass", chf(1156014349.5, "ffff")],
+            ["python-r1", "/usr/portage/eclass", chf(2**31, "80000000000000000000000000000000")],
+        ]
+        old = {"cpv": "dev-util/a-1", "values": {"SLOT": "0", "DESCRIPTION": "old entry", "INHERIT": "eutils"},
+               "eclasses": ecl_old, "chf": chf(1000, "1")}
+        new = {"cpv": "dev-util/a-1",
+               "values": {"SLOT": "0/2.1", "DESCRIPTION": "provides a = b caf\u00e9 \u65e5\u672c", "IUSE": "", "KEYWORDS": "~amd64 x86",
+                          "SRC_URI": "http://example.org/?q=1&r=2 -> f.tgz", "INHERIT": "toolchain-funcs python-r1", "FOO": "dropped"},
+               "eclasses": ecl_new, "chf": chf(1700000000.999999, "00ff" + "ab" * 14)}
+        other = {"cpv": "dev-util/b-2.4-r1", "values": {"EAPI": "8", "RDEPEND": "|| ( a/b c/d )"}, "eclasses": None, "chf": chf(5, "5")}
+        far = {"cpv": "sys-libs/c-10", "values": {"EAPI": "8"}, "eclasses": [], "chf": chf(7, "7")}
+        out.append({"backend": backend, "auxdbkeys": None, "crash": True, "ops": [old, other, new]})          # replace
+        out.append({"backend": backend, "auxdbkeys": None, "crash": True, "ops": [other, new]})               # fresh key, dir exists
+        out.append({"backend": backend, "auxdbkeys": None, "crash": True, "ops": [far, new]})                 # fresh directory
+        out.append({"backend": backend, "auxdbkeys": ["DESCRIPTION", "EAPI", "SLOT", "_eclasses_"], "crash": False,
+                    "ops": [old, new, other, far]})
+        out.append({"backend": backend, "auxdbkeys": ["DESCRIPTION", "SLOT"], "crash": False, "ops": [new]})
+    return out
+
+
 def _interleave(a, b):
     """alternate the two task kinds so that both make progress whatever the job count / budget"""
     out = []
@@ -463,19 +483,24 @@ def _interleave(a, b):
 
 
 def plan(tier, seed):
+    # quick is sized for the verification host: a forked injection costs ~0.15 s and forks do not scale over
+    # workers (about 15 injections/s in total), so the generated crash cases are few; thorough keeps the full sizes
     if tier == "quick":
-        return _interleave([{"task": "roundtrip", "examples": 300} for _ in range(6)],
-                           [{"task": "crash", "examples": 32} for _ in range(10)])
-    return _interleave([{"task": "roundtrip", "examples": 10000} for _ in range(8)],
-                       [{"task": "crash", "examples": 1200} for _ in range(16)])
+        return [{"task": "smoke"}] + _interleave([{"task": "roundtrip", "examples": 300} for _ in range(6)],
+                                                  [{"task": "crash", "examples": 12} for _ in range(4)])
+    return [{"task": "smoke"}] + _interleave([{"task": "roundtrip", "examples": 10000} for _ in range(8)],
+                                              [{"task": "crash", "examples": 1200} for _ in range(16)])
 
 
 def run_task(ctx, task, **kw):
     env = Env()
-    if task == "roundtrip":
-        core.hyp_run(ctx, cases(False), lambda c: None if ctx.out_of_time() else check_case(ctx, c, env), kw["examples"], chunk=250)
+    if task == "smoke":
+        for c in smoke_cases():
+            check_case(ctx, c, env)
+    elif task == "roundtrip":
+        core.hyp_run(ctx, cases(False), lambda c: None if ctx.out_of_time() else check_case(ctx, c, env), kw["examples"], chunk=150)
     elif task == "crash":
-        core.hyp_run(ctx, cases(True), lambda c: None if ctx.out_of_time() else check_case(ctx, c, env), kw["examples"], chunk=50, seed_salt=7)
+        core.hyp_run(ctx, cases(True), lambda c: None if ctx.out_of_time() else check_case(ctx, c, env), kw["examples"], chunk=12, seed_salt=7)
     else:
         raise core.HarnessError(f"unknown task {task}")
 
